@@ -6,6 +6,7 @@
 import WaveletsVerif.Properties.C07D
 import WaveletsVerif.Properties.C07I
 import WaveletsVerif.Properties.C05V
+import WaveletsVerif.Lemmas.Lift
 namespace WV.C07V
 open WV WV.C07 WV.C07D
 variable {R : Type} [CommRing R]
@@ -158,6 +159,56 @@ theorem DWT1DInverse_linear (m : Mode) (g0 g1 : List R) (a b : R) : ∀ (bs bs' 
           List.foldlM_cons, List.foldlM_nil]
         rw [step1, hcrop, hlin]
         rfl
+
+
+/-! ### the J-level 1-D forward transform -/
+
+/-- `AFB1D.forward` on one channel, raising cases included -/
+theorem AFB1D_forward_single_eq (m : Mode) (w0 w1 x : List R) :
+    AFB1D_forward m w0 w1 [x] = (afb1dOne m w0 x).bind fun lo => (afb1dOne m w1 x).bind fun hi => some ([lo], [hi]) := by
+  cases h0 : afb1dOne m w0 x with
+  | none =>
+    unfold AFB1D_forward
+    simp only [List.map_cons, List.map_nil]
+    rw [afb1dT_one]
+    simp [alongO, alongWO, h0]
+  | some lo =>
+    cases h1 : afb1dOne m w1 x with
+    | none =>
+      unfold AFB1D_forward
+      simp only [List.map_cons, List.map_nil]
+      rw [afb1dT_one]
+      simp [alongO, alongWO, h0, h1]
+    | some hi =>
+      rw [C05U.AFB1D_forward_one m w0 w1 x lo hi h0 h1]
+      rfl
+
+/-- **`DWT1DForward` is linear (one channel, every mode, every J) and whether it raises depends on the length only**: on a linear
+combination of two signals of one length it returns the linear combination, band by band, of what it returns on each -/
+theorem DWT1DForward_linear (m : Mode) (w0 w1 : List R) (a b : R) : ∀ (J : Nat) (x x' : List R), x.length = x'.length →
+    DWT1DForward m w0 w1 J [lincomb a b x x']
+      = (DWT1DForward m w0 w1 J [x]).bind fun p => (DWT1DForward m w0 w1 J [x']).bind fun q =>
+          some ([lincomb a b (p.1.getD 0 []) (q.1.getD 0 [])],
+                List.zipWith (fun u v => [lincomb a b (u.getD 0 []) (v.getD 0 [])]) p.2 q.2)
+  | 0, x, x', _ => by simp [DWT1DForward]
+  | J+1, x, x', hl => by
+    obtain ⟨g0, F0, hF0, e0⟩ := afb1dOne_guardedLin m w0
+    obtain ⟨g1, F1, hF1, e1⟩ := afb1dOne_guardedLin m w1
+    simp only [DWT1DForward, AFB1D_forward_single_eq, e0, e1, lincomb_length, ← hl]
+    by_cases c0 : g0 x.length = true
+    · by_cases c1 : g1 x.length = true
+      · simp only [c0, c1, if_true, Option.bind_some, Option.bind_eq_bind]
+        obtain ⟨f0, l0⟩ := hF0 a b x x' hl
+        obtain ⟨f1, _⟩ := hF1 a b x x' hl
+        rw [f0, f1, DWT1DForward_linear m w0 w1 a b J (F0 x) (F0 x') l0]
+        cases DWT1DForward m w0 w1 J [F0 x] with
+        | none => simp
+        | some p =>
+          cases DWT1DForward m w0 w1 J [F0 x'] with
+          | none => simp
+          | some q => simp
+      · simp [c0, c1]
+    · simp [c0]
 
 /-- non-vacuity: two pyramids of one shape -/
 example : SameShape ([[1, 2, 3], [4, 5]] : List (List Int)) [[0, 0, 1], [7, 7]] := by simp [SameShape]
